@@ -18,6 +18,11 @@ C14 — model M of Steel's module system (`crates/steel-core/src/compiler/module
                         depth-first compilation of dependencies (`ModuleBuilder::compile`) and the list of
                         module bodies emitted into the program.
 §6  M                   the flat global table keyed by (mangled) names, module bodies writing into it.
+§7  whole runs + guard  `runM` / `runS`, and the decidable guard (`graphGuard`, `reqGuard`, `specOK`) of the refinement
+                        theorem M = S on whole requests (`Props.lean` §5).
+Separate files: `Contract.lean` (what `contracts.scm` does at a `contract/out` boundary, and its S), `Prune.lean`
+(unused-import pruning), `Macros.lean` (macros provided by modules); `GenConsts.lean` / `GenTables.lean` are regenerated
+from /repo by `translate/c14_constants.py` / `translate/c14_tables.py`.
 
 Everything is executable (the driver runs it) and imports nothing outside core.
 -/
@@ -390,13 +395,15 @@ def hashPairs (hashes : List (Nat × List Export)) (t : Nat) : List (Name × Exp
 
 /-- The imports (bound name, hash entry) of a module / program with requires `specs`, read from the
 hashes that exist, in definition order.  `none`: composing the modifiers found an ill-formed spec. -/
+def mStepC (hashes : List (Nat × List Export)) (acc : Option (List (Name × Export))) (s : Spec) :
+    Option (List (Name × Export)) :=
+  match acc, s.importsS (hashPairs hashes) with
+  | some l, some l' => some (l ++ l')
+  | _, _ => none
+
 def mImports (compose : Bool) (hashes : List (Nat × List Export)) (specs : List Spec) :
     Option (List (Name × Export)) :=
-  if compose then
-    specs.foldl (fun acc s =>
-      match acc, s.importsS (hashPairs hashes) with
-      | some l, some l' => some (l ++ l')
-      | _, _ => none) (some [])
+  if compose then specs.foldl (mStepC hashes) (some [])
   else
     some ((specs.map Spec.flatten).flatMap fun r =>
       (r.importsM (hashPairs hashes r.target)).map fun i => (i.1, i.2.2))
@@ -559,16 +566,21 @@ def Spec.canonical2 (provs : Nat → List Name) : Spec → Bool
 def sImports (ex : Nat → List (Name × Val)) (specs : List Spec) : List (Name × Val) :=
   specs.flatMap fun s => (s.importsS ex).getD []
 
-def modGuard (g : Graph) (ms : List SMod) (k : Nat) : Bool :=
+/-- The condition on a require spec: with the modifiers flattened (the code, `compose = false`) the fragment on
+which flattening and composing agree; with the modifiers composed (`Fix.compose`) just well-formedness under S. -/
+def specOK (compose : Bool) (ms : List SMod) (s : Spec) : Bool :=
+  if compose then (s.importsS (sExports ms)).isSome else s.canonical2 (expNames ms)
+
+def modGuard (compose : Bool) (g : Graph) (ms : List SMod) (k : Nat) : Bool :=
   let m := g.mod k
-  m.reqs.all (fun s => s.canonical2 (expNames ms)) &&
+  m.reqs.all (fun s => specOK compose ms s) &&
     (m.provs.map (·.name) ++ m.views).all fun n => ((senv ms k).lookup n).isSome
 
-def graphGuard (g : Graph) : Bool :=
-  g.wf && (List.range g.length).all (modGuard g (sBuild g))
+def graphGuard (compose : Bool) (g : Graph) : Bool :=
+  g.wf && (List.range g.length).all (modGuard compose g (sBuild g))
 
-def reqGuard (g : Graph) (ms : List SMod) (r : Request) : Bool :=
-  r.specs.all (fun s => decide (s.target < g.length) && s.canonical2 (expNames ms)) &&
+def reqGuard (compose : Bool) (g : Graph) (ms : List SMod) (r : Request) : Bool :=
+  r.specs.all (fun s => decide (s.target < g.length) && specOK compose ms s) &&
     ((sImports (sExports ms) r.specs).map (·.1) ++ r.defs).all fun n => decide (SourceIdent n)
 
 end SteelVerif.C14
